@@ -83,7 +83,8 @@ type Pipe struct {
 	LoseKind string // eof | err | werr
 	lost     bool
 
-	CloseBehaviour string // eof | err | stay : what a blocked/later Read does after Close
+	CloseBehaviour string // eof | err | stay | late : what a blocked/later Read does after Close
+	LateOnClose    []byte // "late": what the Read that was under way at Close comes back with, 30 ms later
 	failReadOnce   bool
 	CloseErr       error // returned by Close (which closes all the same): "connection reset by peer" and the like
 	opened         bool
@@ -310,6 +311,24 @@ func (p *Pipe) Read(n int) ([]byte, error) {
 	for {
 		if p.closed {
 			switch p.CloseBehaviour {
+			case "late":
+				// the Read that was under way when the transport was closed comes back a little later with the last bytes the
+				// peer had sent (once); after that the stream has ended
+				if !slept && len(p.LateOnClose) > 0 {
+					b := p.LateOnClose
+					p.LateOnClose = nil
+					p.mu.Unlock()
+					time.Sleep(30 * time.Millisecond)
+					p.mu.Lock()
+					p.ev("deliver-late", b)
+					p.mu.Unlock()
+
+					return b, nil
+				}
+
+				p.mu.Unlock()
+
+				return nil, io.EOF
 			case "err":
 				p.mu.Unlock()
 				return nil, errEIO
